@@ -294,6 +294,8 @@ package server
 //
 //@ func followerController.readSnapshotStream(fc, stream, loader, firstChunk) (size, err)
 //@ property C04 C05
+//@ forbids closeStream, Lock
+//@ note forbids: the function runs inside handleSnapshot's critical section; closeStream and Lock take the follower's (non-reentrant) mutex again
 //@ requires stream != nil && loader != nil && fc.log != nil
 //@ loop 0 invariant old(fc.term) != -1 ==> fc.term == old(fc.term)
 //@ loop 0 modifies fc.term, fc.closeStreamWg, ghost(chunks, stream), ghost(lastChunkTerm, stream), fresh
